@@ -684,9 +684,9 @@ def gen_v4(rng, r=None):
         # a self-calibration (L2) stream next to the L1 stream, with its OWN antenna / polarisation ordering
         return dict(kind='v4', seed=rng.randrange(2 ** 31), T=rng.randint(3, 6), F=rng.randint(2, 6),
                     products=rng.choice(['l2.GPHASE', 'l1.G,l2.GPHASE', 'l2.GPHASE,l1.K']), nan_gain=False, l2=True)
-    return dict(kind='v4', seed=rng.randrange(2 ** 31), T=rng.randint(3, 6), F=rng.randint(2, 6),
+    return dict(kind='v4', seed=rng.randrange(2 ** 31), T=rng.randint(3, 6), F=rng.randint(3, 6),
                 products=rng.choice(['l1.G', 'l1.K,l1.G', 'l1.B,l1.G', 'l1.K,l1.B,l1.G', 'G', 'l1']),
-                nan_gain=rng.random() < 0.6)
+                nan_gain=rng.random() < 0.4, zero_gain=rng.random() < 0.4, nan_bp_edges=rng.random() < 0.4)
 
 
 def run_v4(case):
@@ -706,6 +706,14 @@ def run_v4(case):
     if case['nan_gain']:
         # a whole solution history invalid for one input: nothing to interpolate from
         g[:, rs.randint(len(pols)), rs.randint(n_ants)] = np.nan
+    if case.get('zero_gain'):
+        # one solution of one input is exactly zero (a dead signal path): a valid solution whose inverse is not a number
+        g[rs.randint(T), rs.randint(len(pols)), rs.randint(n_ants)] = 0
+    if case.get('nan_bp_edges'):
+        # no bandpass solution in the outermost channels of one input: not extrapolated
+        pe, ae = rs.randint(len(pols)), rs.randint(n_ants)
+        bp[0, pe, ae] = np.nan
+        bp[-1, pe, ae] = np.nan
     bandwidth = float(F) * 1e6
     center = 1284e6
     attrs = {'cal_antlist': ants, 'cal_pol_ordering': pols, 'cal_center_freq': center, 'cal_bandwidth': bandwidth,
@@ -976,6 +984,8 @@ def run(ctx):
     cases += [gen_case(ctx.rng) for _ in range(ctx.q(360, 12000))]
     cases += [gen_roundtrip(ctx.rng) for _ in range(ctx.q(16, 400))]
     cases += [gen_v4(ctx.rng, r) for r in (0.1, 0.2, 0.35)]     # two-target L2, split bandpass, late gains: always
+    cases += [dict(kind='v4', seed=ctx.rng.randrange(2 ** 31), T=ctx.rng.randint(3, 6), F=ctx.rng.randint(3, 6),
+                   products='l1.B,l1.G', nan_gain=False, zero_gain=True, nan_bp_edges=True)]
     cases += [dict(kind='v4', pair=True, seed=ctx.rng.randrange(2 ** 31), T=ctx.rng.randint(2, 4), F=ctx.rng.randint(2, 4),
                    products=ctx.rng.choice(['l1.G', 'l1.B,l1.G']), same_cbid=bool(k)) for k in range(2)]
     cases += [gen_v4(ctx.rng) for _ in range(ctx.q(5, 60))]
